@@ -7,14 +7,16 @@
 //!              process = push every dependency (graph in a thread_local, `process` is a static fn)
 //!   "raw"      layout21raw::DepOrder::order(&lib): cells = `items` in that order; nodes not in `items`
 //!              are cells that are instantiated but not listed in lib.cells; "nolayout": [ids] = cells with only
-//!              an abstract view (no dependencies)
+//!              an abstract view (no dependencies); "absalso": [ids] = cells with an abstract view besides their layout;
+//!              "noview": [ids] = cells with neither view (the three lists are understood by raw, rawproto, tetris, tproto)
 //!   "rawproto" the same library through layout21raw::Library::to_proto(): order of plib.cells
 //!   "tetris"   layout21tetris::library::Library::dep_order(); "dup": m > 0 = cell i is NAMED c{i mod m} (shared names)
 //!   "tproto"   layout21tetris::conv::proto::ProtoExporter::export(&lib): order of plib.cells (CellOrder)
 //!   "place"    layout21tetris::placer::Placer::place on one parent cell whose instances are placed relative to
 //!              each other (out-degree <= 1): order of the parent's instances afterwards (PlaceOrder)
 //!   "gds"      layout21raw::Library::from_gds(&gdslib, None): order of lib.cells (GdsDepOrder);
-//!              structs listed in `items` order; every m-th reference is an AREF (1x1) when m > 0
+//!              structs listed in `items` order; every m-th reference is an AREF (1x1) when m > 0; "filler": f > 0 = a boundary /
+//!              path / text element before the first, after the last and before every f-th reference
 //! Result: {"rc":0,"out":[ids]} | {"rc":1,"err":msg}   (a panic becomes {"panic":..} in main_loop,
 //! a stack overflow kills the process and is seen by the caller as {"crash":..}).
 use l21h::{json, Value};
@@ -93,19 +95,34 @@ fn run_gen(g: Vec<Vec<usize>>, items: Vec<usize>) -> Value {
 }
 
 /// raw library: one cell per node, each with a Layout whose instances point at the dependencies' cells
-fn build_raw(g: &[Vec<usize>], items: &[usize]) -> raw::Library {
-    build_raw_with(g, items, &[]).0
+/// Which views the cells have: `nolayout` = only an abstract view (they instantiate nothing; the generator gives them no
+/// dependencies), `absalso` = an abstract view IN ADDITION to the layout, `noview` = neither view (no dependencies either).
+#[derive(Default)]
+struct Views {
+    nolayout: Vec<usize>,
+    absalso: Vec<usize>,
+    noview: Vec<usize>,
 }
-/// `nolayout`: cells that have only an abstract view (they instantiate nothing; the generator gives them no dependencies)
-fn build_raw_with(g: &[Vec<usize>], items: &[usize], nolayout: &[usize]) -> (raw::Library, Vec<Ptr<raw::Cell>>) {
+fn id_list(case: &Value, key: &str) -> Vec<usize> {
+    case[key].as_array().map(|a| a.iter().filter_map(|x| x.as_u64().map(|v| v as usize)).collect()).unwrap_or_default()
+}
+fn views_of(case: &Value) -> Views {
+    Views { nolayout: id_list(case, "nolayout"), absalso: id_list(case, "absalso"), noview: id_list(case, "noview") }
+}
+fn build_raw_with(g: &[Vec<usize>], items: &[usize], views: &Views) -> (raw::Library, Vec<Ptr<raw::Cell>>) {
     let ptrs: Vec<Ptr<raw::Cell>> = (0..g.len()).map(|i| Ptr::new(raw::Cell::new(format!("c{}", i)))).collect();
     for (i, deps) in g.iter().enumerate() {
-        if nolayout.contains(&i) {
+        if views.noview.contains(&i) {
+            continue;
+        }
+        if views.nolayout.contains(&i) || views.absalso.contains(&i) {
             let outline = raw::Polygon {
                 points: vec![raw::Point::new(0, 0), raw::Point::new(4, 0), raw::Point::new(4, 4), raw::Point::new(0, 4)],
             };
             ptrs[i].write().unwrap().abs = Some(raw::Abstract::new(format!("c{}", i), outline));
-            continue;
+            if views.nolayout.contains(&i) {
+                continue;
+            }
         }
         let mut layout = raw::Layout::default();
         layout.name = format!("c{}", i);
@@ -127,8 +144,8 @@ fn build_raw_with(g: &[Vec<usize>], items: &[usize], nolayout: &[usize]) -> (raw
     (lib, ptrs)
 }
 
-fn run_raw(g: Vec<Vec<usize>>, items: Vec<usize>, nolayout: Vec<usize>) -> Value {
-    let (lib, ptrs) = build_raw_with(&g, &items, &nolayout);
+fn run_raw(g: Vec<Vec<usize>>, items: Vec<usize>, views: Views) -> Value {
+    let (lib, ptrs) = build_raw_with(&g, &items, &views);
     match raw::DepOrder::order(&lib).into_res() {
         // cells are identified by pointer, not by name
         Ok(order) => ok(order.iter().map(|p| ptrs.iter().position(|q| q == p).map(|i| i as i64).unwrap_or(-1)).collect()),
@@ -136,19 +153,17 @@ fn run_raw(g: Vec<Vec<usize>>, items: Vec<usize>, nolayout: Vec<usize>) -> Value
     }
 }
 
-fn run_rawproto(g: Vec<Vec<usize>>, items: Vec<usize>) -> Value {
-    let lib = build_raw(&g, &items);
+fn run_rawproto(g: Vec<Vec<usize>>, items: Vec<usize>, views: Views) -> Value {
+    let lib = build_raw_with(&g, &items, &views).0;
     match lib.to_proto() {
         Ok(plib) => ok(plib.cells.iter().map(|c| id_of(&c.name)).collect()),
         Err(e) => err(format!("{:?}", e)),
     }
 }
 
-fn build_tetris(g: &[Vec<usize>], items: &[usize]) -> tetris::library::Library {
-    build_tetris_with(g, items, 0).0
-}
 /// `dup` > 0: cell i is named "c{i % dup}", so different cells share names (cells are objects, not names)
-fn build_tetris_with(g: &[Vec<usize>], items: &[usize], dup: usize) -> (tetris::library::Library, Vec<Ptr<tetris::cell::Cell>>) {
+/// `views`: nolayout = only an abstract view, absalso = both views, noview = a cell without any view
+fn build_tetris_with(g: &[Vec<usize>], items: &[usize], dup: usize, views: &Views) -> (tetris::library::Library, Vec<Ptr<tetris::cell::Cell>>) {
     use tetris::cell::Cell;
     use tetris::instance::Instance;
     use tetris::layout::Layout;
@@ -156,6 +171,15 @@ fn build_tetris_with(g: &[Vec<usize>], items: &[usize], dup: usize) -> (tetris::
     let nm = |i: usize| if dup > 0 { format!("c{}", i % dup) } else { format!("c{}", i) };
     let ptrs: Vec<Ptr<Cell>> = (0..g.len()).map(|i| Ptr::new(Cell::new(nm(i)))).collect();
     for (i, deps) in g.iter().enumerate() {
+        if views.noview.contains(&i) {
+            continue;
+        }
+        if views.nolayout.contains(&i) || views.absalso.contains(&i) {
+            ptrs[i].write().unwrap().abs = Some(tetris::abs::Abstract::new(nm(i), 0, Outline::rect(100, 10).unwrap()));
+            if views.nolayout.contains(&i) {
+                continue;
+            }
+        }
         let mut layout = Layout::new(nm(i), 0, Outline::rect(100, 10).unwrap());
         for (k, d) in deps.iter().enumerate() {
             layout.instances.add(Instance {
@@ -175,8 +199,8 @@ fn build_tetris_with(g: &[Vec<usize>], items: &[usize], dup: usize) -> (tetris::
     (lib, ptrs)
 }
 
-fn run_tetris(g: Vec<Vec<usize>>, items: Vec<usize>, dup: usize) -> Value {
-    let (lib, ptrs) = build_tetris_with(&g, &items, dup);
+fn run_tetris(g: Vec<Vec<usize>>, items: Vec<usize>, dup: usize, views: Views) -> Value {
+    let (lib, ptrs) = build_tetris_with(&g, &items, dup, &views);
     match lib.dep_order().into_res() {
         // cells are identified by pointer, not by name
         Ok(order) => ok(order.iter().map(|p| ptrs.iter().position(|q| q == p).map(|i| i as i64).unwrap_or(-1)).collect()),
@@ -184,22 +208,36 @@ fn run_tetris(g: Vec<Vec<usize>>, items: Vec<usize>, dup: usize) -> Value {
     }
 }
 
-fn run_tproto(g: Vec<Vec<usize>>, items: Vec<usize>) -> Value {
-    let lib = build_tetris(&g, &items);
+fn run_tproto(g: Vec<Vec<usize>>, items: Vec<usize>, views: Views) -> Value {
+    let lib = build_tetris_with(&g, &items, 0, &views).0;
     match tetris::conv::proto::ProtoExporter::export(&lib) {
         Ok(plib) => ok(plib.cells.iter().map(|c| id_of(&c.name)).collect()),
         Err(e) => err(format!("{:?}", e)),
     }
 }
 
-fn run_gds(g: Vec<Vec<usize>>, items: Vec<usize>, arefmod: usize) -> Value {
-    use gds21::{GdsArrayRef, GdsLibrary, GdsPoint, GdsStruct, GdsStructRef};
+/// `filler` > 0: elements that are no references (boundary, path, text) stand before, between and after the references
+fn run_gds(g: Vec<Vec<usize>>, items: Vec<usize>, arefmod: usize, filler: usize) -> Value {
+    use gds21::{GdsArrayRef, GdsBoundary, GdsLibrary, GdsPath, GdsPoint, GdsStruct, GdsStructRef, GdsTextElem};
     let mut lib = GdsLibrary::new("lib");
     let mut k = 0usize;
+    let fill = |s: &mut GdsStruct, j: usize| match j % 3 {
+        0 => s.elems.push(
+            GdsBoundary { layer: 1, datatype: 0, xy: GdsPoint::vec(&[(0, 0), (4, 0), (4, 4), (0, 4), (0, 0)]), ..Default::default() }.into(),
+        ),
+        1 => s.elems.push(GdsPath { layer: 2, datatype: 0, width: Some(2), xy: GdsPoint::vec(&[(0, 0), (8, 0)]), ..Default::default() }.into()),
+        _ => s.elems.push(GdsTextElem { string: "t".into(), layer: 1, texttype: 0, xy: GdsPoint::new(1, 1), ..Default::default() }.into()),
+    };
     for i in items.iter() {
         let mut s = GdsStruct::new(format!("c{}", i));
+        if filler > 0 {
+            fill(&mut s, *i);
+        }
         for d in g[*i].iter() {
             k += 1;
+            if filler > 0 && k % filler == 0 {
+                fill(&mut s, k);
+            }
             if arefmod > 0 && k % arefmod == 0 {
                 s.elems.push(
                     GdsArrayRef {
@@ -214,6 +252,9 @@ fn run_gds(g: Vec<Vec<usize>>, items: Vec<usize>, arefmod: usize) -> Value {
             } else {
                 s.elems.push(GdsStructRef { name: format!("c{}", d), xy: GdsPoint::new(k as i32, 0), ..Default::default() }.into());
             }
+        }
+        if filler > 0 {
+            fill(&mut s, *i + 1);
         }
         lib.structs.push(s);
     }
@@ -289,12 +330,12 @@ fn run(case: &Value) -> Value {
     let (g, items) = parse_graph(case);
     match k {
         "gen" => run_gen(g, items),
-        "raw" => run_raw(g, items, case["nolayout"].as_array().map(|a| a.iter().filter_map(|x| x.as_u64().map(|v| v as usize)).collect()).unwrap_or_default()),
-        "rawproto" => run_rawproto(g, items),
-        "tetris" => run_tetris(g, items, case["dup"].as_u64().unwrap_or(0) as usize),
-        "tproto" => run_tproto(g, items),
+        "raw" => run_raw(g, items, views_of(case)),
+        "rawproto" => run_rawproto(g, items, views_of(case)),
+        "tetris" => run_tetris(g, items, case["dup"].as_u64().unwrap_or(0) as usize, views_of(case)),
+        "tproto" => run_tproto(g, items, views_of(case)),
         "place" => run_place(g, items),
-        "gds" => run_gds(g, items, case["aref"].as_u64().unwrap_or(0) as usize),
+        "gds" => run_gds(g, items, case["aref"].as_u64().unwrap_or(0) as usize, case["filler"].as_u64().unwrap_or(0) as usize),
         _ => json!({"harness_error": "bad kind"}),
     }
 }
